@@ -2190,8 +2190,9 @@ class UndoSearch:
              'user_name': u,
              'size': tl,
              'description': d}
-        d.update(e)
-        return d
+        # The transaction's own data win over extension keys of the same
+        # name, as they do in history().
+        return dict(e, **d)
 
 
 class FilePool:
